@@ -14,7 +14,16 @@ fn why_kind(w: &str) -> &str {
 }
 
 pub fn check_value(loc: &Locale, case: &Value, st: &mut Stats, mode: Count) {
+    netted(st, || case.clone(), case_size(case), |st| check_value_inner(loc, case, st, mode));
+}
+
+fn check_value_inner(loc: &Locale, case: &Value, st: &mut Stats, mode: Count) {
     st.eval();
+    if !loc.extensions.other.is_empty() {
+        // supporting other extensions is allowed (C03); the property does not say where they go in the canonical form
+        st.class("value with an extension other than t / u / x (canonical form not specified: skipped)");
+        return;
+    }
     let size = case_size(case);
     let o = obs::obs_locale(loc);
     let route = values::case_route(case);
